@@ -13,7 +13,13 @@ import Nstd.Generated.SeqConst
   functions), `absS` forgets node ids, free lists, capacities and storage.
   Only the property theorems live here; helper lemmas are in Lemmas*.lean.
 -/
+set_option linter.unusedSectionVars false
 namespace Nstd.Seq
+
+/- Everything below holds for EVERY rounding mask of `Array::reserve` (class `ArrCfg`; `reserve_policy` needs the form
+   `2^j - 1`) and for every number of items per block `≥ 1` of List (`lk`) and PoolList (`pk`): the constants read off
+   the current sources (Generated/SeqConst.lean) only instantiate them (`mask_is_pow2_minus_one`, `block_items_pos`). -/
+variable [ArrCfg]
 
 /-! ### Refinement: contents and returned iterators / references, for all histories -/
 
@@ -44,13 +50,13 @@ theorem refines_from (ops : List Op) : ∀ (s : State), Inv s →
       exact ⟨this.1, by simp only [this.2]⟩
 
 /-- contents after every history starting from the freshly constructed containers -/
-theorem refines (ops : List Op) : absS (run {} ops) = Spec.run {} ops :=
-  (refines_from ops {} ⟨AState.ok_init, AState.ok_init⟩).1
+theorem refines (lk pk : Nat) (ops : List Op) : absS (run (State.init lk pk) ops) = Spec.run {} ops :=
+  (refines_from ops (State.init lk pk) ⟨AState.ok_init, AState.ok_init⟩).1
 
 /-- every value returned along every history (iterator positions, references, front/back/[] values,
     `==` results; `none` for rejected operations) is the one the reference returns -/
-theorem refines_returns (ops : List Op) : trace {} ops = Spec.trace {} ops :=
-  (refines_from ops {} ⟨AState.ok_init, AState.ok_init⟩).2
+theorem refines_returns (lk pk : Nat) (ops : List Op) : trace (State.init lk pk) ops = Spec.trace {} ops :=
+  (refines_from ops (State.init lk pk) ⟨AState.ok_init, AState.ok_init⟩).2
 
 /-- what the reference says about a returned insert iterator: it designates the inserted element … -/
 theorem insert_returns_inserted (xs : List Int) (pos : Nat) (x : Int) (ys : List Int) (r : Option Int)
@@ -170,14 +176,16 @@ theorem lsort_int (s : LState) :
 /-! ### Nodes of List / PoolList -/
 
 /-- In every reachable state of every List and PoolList variable the items of the chain and of the free
-    list are pairwise distinct, lie inside the allocated blocks and are together exactly the `4 * nblocks`
+    list are pairwise distinct, lie inside the allocated blocks and are together exactly the `bk * nblocks`
     items of the blocks: insertion never hands out an item that is still linked, removal/clear never lose
     one (this is what makes the chain-of-(id, value) abstraction of the model sound). -/
-theorem nodes_inv (ops : List Op) (c : LState)
-    (hc : c = (run {} ops).l0 ∨ c = (run {} ops).l1 ∨ c = (run {} ops).p0 ∨ c = (run {} ops).p1) :
-    (c.ids ++ c.free).Nodup ∧ (∀ id ∈ c.ids ++ c.free, id < 4 * c.nblocks) ∧
-      (c.ids ++ c.free).length = 4 * c.nblocks := by
-  have h := run_nodes_inv ops {} ⟨LState.linv_init, LState.linv_init, LState.linv_init, LState.linv_init⟩
+theorem nodes_inv (lk pk : Nat) (hl : 0 < lk) (hp : 0 < pk) (ops : List Op) (c : LState)
+    (hc : c = (run (State.init lk pk) ops).l0 ∨ c = (run (State.init lk pk) ops).l1 ∨
+          c = (run (State.init lk pk) ops).p0 ∨ c = (run (State.init lk pk) ops).p1) :
+    (c.ids ++ c.free).Nodup ∧ (∀ id ∈ c.ids ++ c.free, id < c.bk * c.nblocks) ∧
+      (c.ids ++ c.free).length = c.bk * c.nblocks := by
+  have h := run_nodes_inv ops (State.init lk pk)
+    ⟨LState.linv_init lk hl, LState.linv_init lk hl, LState.linv_init pk hp, LState.linv_init pk hp⟩
   rcases hc with e | e | e | e <;> subst e
   · exact ⟨h.1.nodup, h.1.bound, h.1.count⟩
   · exact ⟨h.2.1.nodup, h.2.1.bound, h.2.1.count⟩
@@ -205,9 +213,9 @@ theorem never_move_insert (s : LState) (hs : LState.LInv s) (pos : Nat) (v : Int
       rw [hf] at hnd
       exact (List.nodup_append.1 hnd).2.2 f hm f List.mem_cons_self rfl
     | nil =>
-      refine ⟨4 * s.nblocks + 3, ?_, by simp [LState.insertRaw, LState.allocNode, hf]⟩
+      refine ⟨s.bk * s.nblocks + (s.bk - 1), ?_, by simp [LState.insertRaw, LState.allocNode, hf]⟩
       intro hm
-      have := hs.bound (4 * s.nblocks + 3) (by unfold LState.pool; simp [hm])
+      have := hs.bound (s.bk * s.nblocks + (s.bk - 1)) (by unfold LState.pool; simp [hm])
       omega
   · simp [c] at h
 
@@ -273,9 +281,9 @@ theorem never_move_swap (s : State) (v : Nat) (hv : v < 2) (r : Res State) (h : 
     `_begin` and the `prev` links from the sentinel run through exactly the model's nodes in order, the first
     item has a null `prev`, the free list (linked through `prev`) is the model's free list, no item is in
     both, and the two models reject the same operations. -/
-theorem ptr_refines (ops : List Ptr.POp) :
-    ∃ xs fs, Ptr.Rep (Ptr.run Ptr.init ops) xs fs (Ptr.runChain {} ops) :=
-  Ptr.run_rep ops Ptr.init [] [] {} Ptr.rep_init
+theorem ptr_refines (k : Nat) (hk : 0 < k) (ops : List Ptr.POp) :
+    ∃ xs fs, Ptr.Rep (Ptr.run (Ptr.init k) ops) xs fs (Ptr.runChain { bk := k } ops) :=
+  Ptr.run_rep ops (Ptr.init k) [] [] { bk := k } (Ptr.rep_init k hk)
 
 /-- pointer level: `insert` returns the new item, which is the `k`-th item of the new chain, in front of the
     item the iterator designated -/
@@ -347,8 +355,8 @@ theorem ptr_iteration (p : Ptr.PList) (xs fs : List Nat) (s : LState) (h : Ptr.R
     array without storage is empty; in particular no operation of any history writes outside its
     allocation (the model's checked `push` never faults, cf. `refines`: the model rejects exactly what the
     reference rejects). -/
-theorem array_cap (ops : List Op) :
-    let s := run {} ops
+theorem array_cap (lk pk : Nat) (ops : List Op) :
+    let s := run (State.init lk pk) ops
     (s.a0.data.isSome → s.a0.size ≤ s.a0.cap) ∧ (s.a1.data.isSome → s.a1.size ≤ s.a1.cap) ∧
     (s.a0.data = none → s.a0.size = 0) ∧ (s.a1.data = none → s.a1.size = 0) := by
   have key : ∀ (ops : List Op) (s : State), Inv s → Inv (run s ops) := by
@@ -361,31 +369,36 @@ theorem array_cap (ops : List Op) :
       cases hq : step s op with
       | none => exact ih s h
       | some r => exact ih r.st ((step_refines s op h).2 r hq)
-  have inv := key ops {} ⟨AState.ok_init, AState.ok_init⟩
+  have inv := key ops (State.init lk pk) ⟨AState.ok_init, AState.ok_init⟩
   exact ⟨AState.size_le_cap _ inv.1, AState.size_le_cap _ inv.2,
     fun h => by simp [AState.size, AState.elems_none _ h], fun h => by simp [AState.size, AState.elems_none _ h]⟩
 
-/-- growth policy of `reserve(n)` as coded: storage is (re)allocated iff `n > capacity` or there is no storage
-    yet and `n > 0`; the new capacity is `max n capacity` rounded up to `4k+3` (`| 0x03`); otherwise nothing
-    changes.  The elements are kept and `n ≤ capacity` afterwards. -/
-theorem reserve_policy (s : AState) (n : Nat) :
+/-- `x | (2^j - 1)` rounds `x` up to the next number of the form `q * 2^j + (2^j - 1)` -/
+theorem or_mask (m j : Nat) (hm : m + 1 = 2 ^ j) (x : Nat) : x ||| m = x / 2 ^ j * 2 ^ j + m := by
+  have hpos : 0 < 2 ^ j := Nat.pos_of_ne_zero (by intro e; rw [e] at hm; omega)
+  have hmlt : m < 2 ^ j := by omega
+  have h1 : (x ||| m) / 2 ^ j = x / 2 ^ j := by
+    rw [Nat.or_div_two_pow, Nat.div_eq_of_lt hmlt]; simp
+  have h2 : (x ||| m) % 2 ^ j = m := by
+    rw [Nat.or_mod_two_pow, Nat.mod_eq_of_lt hmlt]
+    have hx : x % 2 ^ j < 2 ^ j := Nat.mod_lt _ hpos
+    have up : x % 2 ^ j ||| m < 2 ^ j := Nat.or_lt_two_pow hx hmlt
+    have lo : m ≤ x % 2 ^ j ||| m := Nat.right_le_or
+    omega
+  have := Nat.div_add_mod (x ||| m) (2 ^ j)
+  rw [h1, h2, Nat.mul_comm] at this
+  exact this.symm
+
+/-- growth policy of `reserve(n)` as coded, for every rounding mask `m = 2^j - 1`: storage is (re)allocated iff
+    `n > capacity` or there is no storage yet and `n > 0`; the new capacity is `max n capacity` rounded up to
+    `q * 2^j + m` (`| m`); otherwise nothing changes.  The elements are kept and `n ≤ capacity` afterwards
+    (`array_cap`). -/
+theorem reserve_policy (j : Nat) (hm : ArrCfg.mask + 1 = 2 ^ j) (s : AState) (n : Nat) :
     (s.reserve n) =
       (if n > s.cap ∨ (s.data = none ∧ n > 0) then
-        ({ cap := (max n s.cap) / 4 * 4 + 3, data := some s.elems }, 1, if s.data.isSome then 1 else 0)
+        ({ cap := (max n s.cap) / 2 ^ j * 2 ^ j + ArrCfg.mask, data := some s.elems }, 1, if s.data.isSome then 1 else 0)
       else (s, 0, 0)) := by
-  have or3 : ∀ k : Nat, k ||| 3 = k / 4 * 4 + 3 := by
-    intro k
-    have h1 : (k ||| 3) / 4 = k / 4 := by
-      have := @Nat.or_div_two_pow k 3 2
-      simpa using this
-    have h2 : (k ||| 3) % 4 = 3 := by
-      have := @Nat.or_mod_two_pow k 3 2
-      have hk : k % 4 < 4 := Nat.mod_lt _ (by omega)
-      simp only [Nat.reducePow, Nat.reduceMod] at this
-      rw [this]
-      have : ∀ j, j < 4 → j ||| 3 = 3 := by decide
-      exact this _ hk
-    omega
+  have or3 := or_mask ArrCfg.mask j hm
   obtain ⟨cap, data⟩ := s
   unfold AState.reserve
   cases data with
@@ -401,36 +414,30 @@ theorem reserve_policy (s : AState) (n : Nat) :
     · simp [c, or3, AState.elems, Nat.max_eq_left (Nat.le_of_lt c)]
     · simp [c]
 
-/-- the growth rule stated over the mask that the translator reads out of the CURRENT `Array::reserve`
-    (`lean/Nstd/Generated/SeqConst.lean`, regenerated on every run): the model's new capacity is
-    `max n capacity | <mask of the source>`.  A changed mask in the source makes this theorem (and the
-    correspondence) fail. -/
-theorem reserve_policy_source (s : AState) (n : Nat) :
-    (s.reserve n).1.cap =
-      if n > s.cap ∨ (s.data = none ∧ n > 0) then (max n s.cap) ||| Generated.Seq.arrayCapMask else s.cap := by
-  obtain ⟨cap, data⟩ := s
-  unfold AState.reserve Generated.Seq.arrayCapMask
-  cases data with
-  | none =>
-    by_cases c : n > cap ∨ n > 0
-    · by_cases c2 : n > cap
-      · simp [c2, Nat.max_eq_left (Nat.le_of_lt c2)]
-      · have c0 : 0 < n := by omega
-        simp [c2, c0, Nat.max_eq_right (Nat.le_of_not_lt c2)]
-    · simp [c]
-  | some es =>
-    by_cases c : n > cap
-    · simp [c, Nat.max_eq_left (Nat.le_of_lt c)]
-    · simp [c]
+omit [ArrCfg] in
+/-- the rounding mask the translator derives from the CURRENT headers (by executing `reserve` on them) has the
+    form `2^j - 1` the theorems ask for -/
+theorem mask_is_pow2_minus_one : Generated.Seq.arrayCapMask + 1 = 2 ^ Generated.Seq.arrayCapBits := by decide
 
-/-- the block size stated over the constants the translator reads out of the CURRENT `List::insert` and
-    `PoolList::allocateFreeItem` (allocation size and fill-loop bound): when the free list is empty the model
-    takes one item and leaves the other `N - 1` items of a fresh block on the free list -/
-theorem block_items_source (s : LState) (h : s.free = []) :
-    (LState.allocNode s).2.1.free.length + 1 = Generated.Seq.listBlockItems ∧
-    (LState.allocNode s).2.1.free.length + 1 = Generated.Seq.poolBlockItems ∧
-    (LState.allocNode s).2.1.nblocks = s.nblocks + 1 ∧ (LState.allocNode s).2.2 = 1 := by
-  simp [LState.allocNode, h, Generated.Seq.listBlockItems, Generated.Seq.poolBlockItems]
+omit [ArrCfg] in
+/-- the items-per-block constants the translator derives from the CURRENT headers are positive -/
+theorem block_items_pos : 0 < Generated.Seq.listBlockItems ∧ 0 < Generated.Seq.poolBlockItems := by decide
+
+/-- the instance the driver runs: the constants of the current sources -/
+@[reducible] def sourceCfg : ArrCfg := ⟨Generated.Seq.arrayCapMask⟩
+
+omit [ArrCfg] in
+/-- `reserve_policy` for the mask of the current sources -/
+theorem reserve_policy_source (s : AState) (n : Nat) :
+    (@AState.reserve sourceCfg s n).1.cap =
+      if n > s.cap ∨ (s.data = none ∧ n > 0) then
+        (max n s.cap) / 2 ^ Generated.Seq.arrayCapBits * 2 ^ Generated.Seq.arrayCapBits + Generated.Seq.arrayCapMask
+      else s.cap := by
+  have h := @reserve_policy sourceCfg Generated.Seq.arrayCapBits mask_is_pow2_minus_one s n
+  rw [h]
+  by_cases c : n > s.cap ∨ (s.data = none ∧ n > 0)
+  · simp only [c, if_true]; rfl
+  · simp only [c, if_false]
 
 /-- `append` does not reallocate while the capacity suffices (iterators/references stay valid) -/
 theorem append_no_realloc (s : AState) (x : Int) (es : List Int) (hd : s.data = some es) (hc : es.length < s.cap) :
@@ -451,9 +458,10 @@ theorem append_no_realloc (s : AState) (x : Int) (es : List Int) (hd : s.data = 
     the block holds exactly the model's elements in its first `size` cells and raw cells behind them,
     `_capacity` agrees, and no operation ever constructs outside the block, reads / assigns / destroys a raw
     cell, or leaves a constructed cell behind `_end` (the two models reject exactly the same operations). -/
-theorem raw_refines (ops : List Op) (h : ∀ op ∈ ops, Raw.isArrayOp op = true) :
-    Raw.Rel (Raw.rrun {} ops).a0 (run {} ops).a0 ∧ Raw.Rel (Raw.rrun {} ops).a1 (run {} ops).a1 :=
-  Raw.rrun_rel ops {} {} ⟨Raw.rel_init, Raw.rel_init⟩ h
+theorem raw_refines (lk pk : Nat) (ops : List Op) (h : ∀ op ∈ ops, Raw.isArrayOp op = true) :
+    Raw.Rel (Raw.rrun {} ops).a0 (run (State.init lk pk) ops).a0 ∧
+    Raw.Rel (Raw.rrun {} ops).a1 (run (State.init lk pk) ops).a1 :=
+  Raw.rrun_rel ops {} (State.init lk pk) ⟨Raw.rel_init, Raw.rel_init⟩ h
 
 /-- cell level, the shifting removal alone: removing element `i` of a block holding `es` leaves a block
     holding `es` without its `i`-th element, the vacated last cell destroyed -/
@@ -482,20 +490,30 @@ def demoOps : List Op :=
    .lsort 0, .lcopy 1, .aappend 0 1, .aappend 0 2, .aappend 0 3, .aappend 0 4, .aremove 0 1,
    .pappend 0 5, .pappend 0 6, .premoveFront 0]
 
-example : absS (run {} demoOps) = { l0 := [1, 7, 9], l1 := [1, 7, 9], p0 := [6], a0 := [1, 3, 4] } ∧
-    (run {} demoOps).a0.cap = 7 := by decide
+/-- mask 3, blocks of 4: the constants of the sources the models were written against -/
+@[reducible] def demoCfg : ArrCfg := ⟨3⟩
+
+omit [ArrCfg] in
+example : absS (@run demoCfg (State.init 4 4) demoOps) = { l0 := [1, 7, 9], l1 := [1, 7, 9], p0 := [6], a0 := [1, 3, 4] } ∧
+    (@run demoCfg (State.init 4 4) demoOps).a0.cap = 7 := by decide
+
+omit [ArrCfg] in
+/-- the same history with mask 7 and blocks of 8 / 2 items: same contents, other capacity -/
+example : absS (@run ⟨7⟩ (State.init 8 2) demoOps) = { l0 := [1, 7, 9], l1 := [1, 7, 9], p0 := [6], a0 := [1, 3, 4] } ∧
+    (@run ⟨7⟩ (State.init 8 2) demoOps).a0.cap = 7 ∧ (@run ⟨7⟩ (State.init 8 2) demoOps).l0.nblocks = 1 ∧
+    (@run ⟨7⟩ (State.init 8 2) demoOps).p0.nblocks = 1 := by decide
 
 /-- the pointer-level model on a concrete history (middle insertion, front/back removal, clear, block reuse) -/
 example :
-    let p := Ptr.run Ptr.init [.insert 0 5, .insert 1 7, .insert 1 6, .remove 0, .insert 2 9, .insert 0 1, .insert 0 2,
+    let p := Ptr.run (Ptr.init 4) [.insert 0 5, .insert 1 7, .insert 1 6, .remove 0, .insert 2 9, .insert 0 1, .insert 0 2,
       .remove 4, .sort, .clear, .insert 0 3]
     p.size = 1 ∧ p.begin = 3 ∧ p.val 3 = 3 ∧ p.next 3 = some 0 ∧ p.prev 0 = some 3 ∧ p.nblocks = 2 ∧ p.free = some 2 := by decide
 
 /-- the cell-level Array on a concrete history (growth 3 → 7, shifting removal, shrinking resize, copy) -/
 example :
-    (Raw.rrun {} [.aappend 0 1, .aappend 0 2, .aappend 0 3, .aappend 0 4, .aremove 0 1, .aresize 0 2 0, .acopy 1]).a0.cells
+    (@Raw.rrun demoCfg {} [.aappend 0 1, .aappend 0 2, .aappend 0 3, .aappend 0 4, .aremove 0 1, .aresize 0 2 0, .acopy 1]).a0.cells
       = some [some 1, some 3, none, none, none, none, none] ∧
-    (Raw.rrun {} [.aappend 0 1, .aappend 0 2, .aappend 0 3, .aappend 0 4, .aremove 0 1, .aresize 0 2 0, .acopy 1]).a1.cells
+    (@Raw.rrun demoCfg {} [.aappend 0 1, .aappend 0 2, .aappend 0 3, .aappend 0 4, .aremove 0 1, .aresize 0 2 0, .acopy 1]).a1.cells
       = some [some 1, some 3, none, none, none, none, none] := by decide
 
 /-- the shared-heap swap on a concrete heap: A = [2, 3] (sentinel 0), B = [4] (sentinel 1) -/
